@@ -13,6 +13,17 @@ NOTE_R = ("Mode R = IEEE specials over exact reals (no rounding/overflow/signed 
           "with instance axioms. Trusted: z3, the shim's model of NumPy element semantics, the oracles in /verif/spec and the harness. ")
 
 CHECKS = {
+    "C14": dict(
+        text="Bounded symbolic verification: one engine per registered term class, every norm in every role, every defuzzifier with/without "
+             "parameter, every activation method with parameters, flags, descriptions, infinite ranges, NaN defaults, `none` operators, "
+             "hedged rules, rule weights and keyword-like names is built with every numeric parameter symbolic; the real FllExporter -> "
+             "FllImporter -> FllExporter runs with numbers carried through the text as placeholder tokens (the statement's "
+             "'representable at the configured decimals' precondition), forking on the real is_close(height,1)/is_close(weight,1) "
+             "branches; per path the second text equals the first, structure is equal, 'imported field != original' is unsat for every "
+             "numeric field, outputs on symbolic inputs cannot differ, and perturbed texts reach a fixed point after one cycle.",
+        note=NOTE_R + "Digit-level formatting (f'{x:.3f}', float()) is outside the model by construction: a change confined to the printed digits "
+             "is not detected (see DESIGN.md, seeded C14-str-scientific-large). Engine family bounded (catalogue).",
+        ref="DESIGN.md §2 C14"),
     "C18": dict(
         text="Bounded symbolic verification with np.savetxt stubbed to capture the table: the real FldExporter.write_from_scope runs with "
              "`values` a symbolic integer, symbolic input ranges and 1-3 inputs, pow() a nondeterministic libm stub (any result within "
